@@ -13,7 +13,10 @@ META = {
             "lookup answers a plain destination without error and the registry holds that destination's name - at most "
             "one endpoint, none for empty/IP/suffix-rejected/refused/unconnected names; for every emitted statement list "
             "in which the lookup is followed by a guard that fires whenever err != nil, a name whose lookup returns an "
-            "error (with or without a destination) is refused; no result shape crashes; every return of hostConn "
+            "error (with or without a destination) is refused; no result shape crashes; over histories in which the "
+            "lookup's answers and the registry change between connections every dial is routed by the answer and the "
+            "registry at that dial (what NewServer stores in s.lookup and who calls it is extracted; a memoising server "
+            "is refuted); every return of hostConn "
             "before the join closes the front connection and bytes flow only after a successful dial of the selected "
             "destination; (concurrency) for every sequence of whole "
             "operations of any number of goroutines on the session-id counter, the side-dial mail office and the "
@@ -151,6 +154,78 @@ def front_terms(g):
     return out
 
 
+def lk_term(e):
+    dest = "None" if e.get("nodest") else "(Some (mkDest %s %s %s))" % (
+        hexlist(e.get("name")), cbool(e.get("home")), hexlist(e.get("forward")))
+    return "(mkLk %s %s)" % (dest, cbool(e.get("err")))
+
+
+def hist_term(h):
+    evs, obs = [], []
+    for e in h["events"]:
+        if e["kind"] == "lookup":
+            evs.append("(0, [%s], [], [])" % "; ".join("(%s, %s)" % (hexlist(t["domain"]), lk_term(t)) for t in e.get("table") or []))
+        elif e["kind"] == "registry":
+            evs.append("(1, [], [%s], [])" % "; ".join(hexlist(x) for x in e.get("endpoints") or []))
+        else:
+            evs.append("(2, [], [], %s)" % hexlist(e["sni"]))
+            code = CODE.get(e.get("decision", ""), 9)
+            obs.append("(%d, %s)" % (code, hexlist(e.get("decision_arg") if code in (6, 7) else "")))
+    return "RcHist %s [%s] [%s]" % (cbool(h["has_home"]), "; ".join(evs), "; ".join(obs))
+
+
+def oracle_hist(h):
+    """every dial is routed by what the lookup answers at that dial, and asks it exactly once"""
+    return oracle_hist_pass(h, False) or oracle_hist_pass(h, True)
+
+
+def oracle_hist_pass(h, count_calls):
+    table, eps, trail = {}, set(), []
+    for i, e in enumerate(h["events"]):
+        if e["kind"] == "lookup":
+            table = {t["domain"]: t for t in e.get("table") or []}
+            trail.append("lookup now answers {%s}" % ", ".join(
+                "%s: %s" % (bytes.fromhex(k).decode("latin1"), lookup_shape(v)) for k, v in table.items()))
+            continue
+        if e["kind"] == "registry":
+            eps = set(e.get("endpoints") or [])
+            trail.append("connected endpoints now %s" % sorted(bytes.fromhex(x).decode("latin1") for x in eps))
+            continue
+        sni = bytes.fromhex(e["sni"]).decode("latin1")
+        d, arg = e.get("decision"), e.get("decision_arg", "")
+        trail.append("dial %s -> %s %s" % (sni, d, bytes.fromhex(arg).decode("latin1") if d in ("endpoint", "forward") else ""))
+        hist = "; ".join(trail[-6:])
+        if d == "panic":
+            return ("hist:dial-crash", "Server.dial panicked in the history [%s]" % hist)
+        if count_calls and e.get("lookups") != 1:
+            return ("hist:lookup-calls:%d" % e.get("lookups", -1),
+                    "the dial of %s called the configured Lookup %d times (every connection must be looked up exactly "
+                    "once, at its dial) in the history [%s]" % (sni, e.get("lookups", -1), hist))
+        cur = table.get(e["sni"])
+        if cur is None or cur.get("err") or cur.get("nodest"):
+            if d in ("endpoint", "home", "forward"):
+                return ("hist:refused-at-dial-routed", "at this dial the lookup's answer for %s is %s, yet the connection "
+                        "was routed: %s %r - history [%s]" % (sni, lookup_shape(cur), d, bytes.fromhex(arg), hist))
+            continue
+        if cur.get("home") or cur.get("forward"):
+            want = "home" if cur.get("home") else "forward"
+            if d == "endpoint":
+                return ("hist:routed-by-earlier-lookup", "at this dial the lookup's answer for %s is %s, yet an endpoint was "
+                        "dialled: %r - history [%s]" % (sni, lookup_shape(cur), bytes.fromhex(arg), hist))
+            continue
+        name = cur.get("name", "")
+        if d == "endpoint" and arg != name:
+            return ("hist:routed-by-earlier-lookup", "at this dial the lookup's answer for %s is endpoint %r, yet endpoint %r "
+                    "was dialled - history [%s]" % (sni, bytes.fromhex(name), bytes.fromhex(arg), hist))
+        if d == "endpoint" and arg not in eps:
+            return ("hist:unconnected-endpoint-dialled", "endpoint %r is not connected at this dial - history [%s]"
+                    % (bytes.fromhex(arg), hist))
+        if d != "endpoint" and name in eps:
+            return ("hist:current-endpoint-not-dialled", "at this dial the lookup's answer for %s is the connected endpoint "
+                    "%r, yet the result was %s - history [%s]" % (sni, bytes.fromhex(name), d, hist))
+    return None
+
+
 def to_coq(c):
     s = c["stream"]
     if c.get("crash"):
@@ -171,6 +246,8 @@ def to_coq(c):
         return addr_terms(c["e2e"])
     if s == "refuse":
         return front_terms(c["refuse"])
+    if s == "hist":
+        return [hist_term(c["hist"])]
     if s == "regen":
         return [office_term(c["regen"]["office"])]
     if s == "race":
@@ -360,6 +437,12 @@ def oracle_refuse(g):
                 return ("refuse:control-accepted-count:" + o["scenario"],
                         "%s: %d connections accepted at the endpoints for one served connection (%s)"
                         % (sc, o["accepted"], o.get("where", "")))
+    for o in g["obs"]:
+        if o.get("lookups") is not None and o["lookups"] != o.get("want_lookups"):
+            sc = "%s mode, world %s, scenario %s" % (g["mode"], o["world"], o["scenario"])
+            return ("refuse:lookup-calls:%d:%s" % (o["lookups"], o["scenario"]),
+                    "%s: the configured Lookup was called %d time(s) for this connection, expected %d (one per sniffed, not "
+                    "rejected hello, at its dial)" % (sc, o["lookups"], o.get("want_lookups")))
     return None
 
 
@@ -388,6 +471,8 @@ def impl_oracle(c):
         return oracle_e2e(c["e2e"])
     if s == "refuse":
         return oracle_refuse(c["refuse"])
+    if s == "hist":
+        return oracle_hist(c["hist"])
     return None
 
 
@@ -414,6 +499,22 @@ def run(ck):
         for line in out.splitlines():
             if line.startswith("{"):
                 cases.append(json.loads(line))
+
+    if binp:
+        # the fixed cases, every refusal path and one concurrent tagged round per tunnel mode once more under the
+        # race detector: overlapping side dials of one endpoint, closes, re-registration
+        rbin = ck.build_harness("c02", race=True)
+        if rbin:
+            rc, out, err = vlib.sh2([rbin, "-child", "-seed", str(ck.seed), "-n", "1", "-e2e", "3" if not ck.thorough else "18"],
+                                    timeout=1200)
+            ck.coverage["race_detector_e2e_cases"] = sum(1 for line in out.splitlines() if line.startswith("{"))
+            blocks = [b for b in err.split("WARNING: DATA RACE")[1:] if "shanhu.io/g/" in b.split("==================")[0]]
+            ck.coverage["race_detector_reports_outside_repo"] = err.count("WARNING: DATA RACE") - len(blocks)
+            if blocks:
+                ck.violation("impl:data-race", "the Go race detector reported a data race while concurrent connections "
+                             "were dialled, served and closed", {"stderr": ("WARNING: DATA RACE" + blocks[0])[:3500]})
+            elif rc != 0 and "DATA RACE" not in err:
+                ck.broken.append({"what": "race-detector run failed", "detail": err[-1500:]})
 
     if ck.thorough and binp:
         # the racing office stream again under the race detector
@@ -511,7 +612,9 @@ def run(ck):
              "battery (empty, IPv4/IPv6 literal forms, each rejected suffix +- one character, arbitrary bytes, mapped/"
              "unmapped/refused names) x random server configurations x the four lookup result shapes (fixed cases first); "
              "refuse = 32 end-to-end refusal/control scenarios per tunnel mode in three proxy worlds, each also evaluated "
-             "by the emitted hostConn + Server.dial in Coq; office = random interleavings of dial programs "
+             "by the emitted hostConn + Server.dial in Coq, incl. a world whose lookup answers change between connections; "
+             "hist = one kept Server, lookup table and endpoint table changing between dials, Lookup calls counted per "
+             "dial; the fixed cases and one tagged round per mode again under the race detector; office = random interleavings of dial programs "
              "with wrong-key/wrong-id/stale/duplicate deliveries; conns = random add/get/remove/shutdown; ids = "
              "concurrent next(); e2e = rounds of 8/24/64 concurrent tagged connections to 2-6 endpoints per tunnel mode; "
              "non-trivial unless the operation list is empty; distinct = distinct case bodies",
